@@ -169,17 +169,95 @@ def foreign_extraction(fn: ast.FunctionDef, var: str = "text") -> List[str]:
     return bad
 
 
-def literal_table(fn: ast.FunctionDef) -> Dict[str, str]:
-    """token type -> text of the value built in that arm of the if-chain on `<tok>.type`."""
+def literal_table(fn: ast.FunctionDef, mod=None, cls=None) -> Dict[str, str]:
+    """token type -> text of the value built for it: from the paths of the function (locals substituted, private
+    helpers expanded), each path labelled by the token types its `<tok>.type ==/in ...` conditions admit."""
+    from ..core.consteval import try_const
+    from ..core.paths import PathWalker, flat_conds
+
     out: Dict[str, str] = {}
-    for n in ast.walk(fn):
-        if isinstance(n, ast.If) and isinstance(n.test, ast.Compare) and ast.unparse(n.test.left).endswith(".type"):
-            comp = n.test.comparators[0]
-            names = [comp.value] if isinstance(comp, ast.Constant) else [e.value for e in getattr(comp, "elts", []) if isinstance(e, ast.Constant)]
-            vals = [ast.unparse(s.value) for s in n.body if isinstance(s, ast.Assign)]
-            for nm in names:
-                out[nm] = vals[-1] if vals else ""
+    try:
+        paths = PathWalker(mod, cls).paths(fn)
+    except OverflowError:
+        return out
+    ALL = {"FLOAT_LIT", "INT_LIT", "UINT_LIT", "STRING_LIT", "MLSTRING_LIT", "BYTES_LIT", "BOOL_LIT", "NULL_LIT"}
+    # a visitor that stores its result on the node (`tree.transpiled = text`) instead of returning it
+    result_vars = [strip_cast(n.value).id for n in ast.walk(fn) if isinstance(n, ast.Assign) and isinstance(n.targets[0], ast.Attribute)
+                   and isinstance(strip_cast(n.value), ast.Name)]
+    for p in paths:
+        if p.kind not in ("return", "end"):
+            continue
+        if p.value is None:
+            for rv in result_vars:
+                if rv in p.env:
+                    p.value = p.env[rv]
+        admitted = set(ALL)
+        typed = False
+        for t, pol in flat_conds(p.conds):
+            if isinstance(t, ast.Compare) and len(t.ops) == 1 and ast.unparse(strip_cast(t.left)).endswith(".type"):
+                comp = t.comparators[0]
+                names = None
+                if isinstance(t.ops[0], (ast.Eq, ast.NotEq)) and isinstance(comp, ast.Constant):
+                    names = {comp.value}
+                elif isinstance(t.ops[0], (ast.In, ast.NotIn)):
+                    val = try_const(mod, comp, cls, fn) if mod is not None else None
+                    if isinstance(val, dict):
+                        val = list(val)
+                    if isinstance(val, (list, tuple, set, frozenset)):
+                        names = set(val)
+                if names is None:
+                    continue
+                typed = True
+                positive = isinstance(t.ops[0], (ast.Eq, ast.In)) == pol
+                admitted = admitted & names if positive else admitted - names
+        if not typed or p.value is None:
+            continue
+        for nm in admitted:
+            # a table indexed by the token type (`CLASS_OF[tok.type]`) is looked up for this type
+            from ..core.paths import clone
+
+            class _Fold(ast.NodeTransformer):
+                def visit_Subscript(self, node: ast.Subscript) -> ast.AST:
+                    self.generic_visit(node)
+                    if ast.unparse(strip_cast(node.slice)).endswith(".type") and mod is not None:
+                        tab = try_const(mod, node.value, cls, fn)
+                        if isinstance(tab, dict) and nm in tab and isinstance(tab[nm], (str, int)):
+                            return ast.copy_location(ast.Constant(value=tab[nm]), node)
+                    return node
+
+            txt = ast.unparse(_Fold().visit(clone(p.value)))
+            # the most specific path wins (a path admitting fewer types describes them better)
+            if nm not in out or len(admitted) == 1:
+                out[nm] = txt if nm not in out or len(admitted) == 1 else out[nm]
     return out
+
+
+def raw_token_text_in_code(arm: str) -> bool:
+    """Does the generated-code expression splice the token's text (`<tok>.value`, possibly sliced) without repr()
+    and outside a quoted Python string literal?"""
+    try:
+        tree = ast.parse(arm, mode="eval")
+    except SyntaxError:
+        return False
+
+    def is_token_text(e: ast.expr) -> bool:
+        e = strip_cast(e)
+        if isinstance(e, ast.Subscript):
+            e = strip_cast(e.value)
+        return isinstance(e, ast.Attribute) and e.attr == "value"
+
+    for n in ast.walk(tree):
+        if isinstance(n, ast.JoinedStr):
+            for i, v in enumerate(n.values):
+                if isinstance(v, ast.FormattedValue) and v.conversion == -1 and is_token_text(v.value):
+                    before = n.values[i - 1].value if i and isinstance(n.values[i - 1], ast.Constant) else ""
+                    if not str(before).endswith(("'", '"')):
+                        return True
+        if isinstance(n, ast.Call) and isinstance(n.func, ast.Attribute) and n.func.attr == "format" and any(is_token_text(a) for a in n.args):
+            return True
+        if isinstance(n, ast.BinOp) and isinstance(n.op, ast.Add) and (is_token_text(n.left) or is_token_text(n.right)):
+            return True
+    return False
 
 
 PROBES = {
@@ -265,8 +343,8 @@ def check(repo: Repo, run: Run) -> None:
                f"{fname}: " + ("content is extracted by fixed-offset slicing only" if not bad else f"`{bad[0]}` removes characters by value, not by position: content that begins/ends with the same character is damaged"),
                ev.loc(fn))
     # L6 -----------------------------------------------------------------
-    ti = literal_table(ev.func_n("Evaluator.literal"))
-    tt = literal_table(ev.func_n("Phase1Transpiler.literal"))
+    ti = literal_table(ev.func("Evaluator.literal"), ev, ev.cls("Evaluator"))
+    tt = literal_table(ev.func("Phase1Transpiler.literal"), ev, ev.cls("Phase1Transpiler"))
     lit_terms = {s for sh in g.shapes("literal") for s in sh}
     want_ctor = {"FLOAT_LIT": "DoubleType", "INT_LIT": "IntType", "UINT_LIT": "UintType", "STRING_LIT": "celstr", "MLSTRING_LIT": "celstr",
                  "BYTES_LIT": "celbytes", "BOOL_LIT": "BoolType", "NULL_LIT": "None"}
@@ -284,7 +362,7 @@ def check(repo: Repo, run: Run) -> None:
     # L4: numeric spellings pasted into generated Python --------------------------
     for term in ("INT_LIT", "UINT_LIT", "FLOAT_LIT"):
         arm = tt.get(term, "")
-        raw_in_code = "{value_token.value" in arm and "!r}" not in arm and "'{value_token" not in arm and '"{value_token' not in arm
+        raw_in_code = raw_token_text_in_code(arm)
         rx, fl = g.regex(term)
         bad = []
         for p in PROBES[term]:
